@@ -366,7 +366,7 @@ ExprSel(d, c, expr) ==
 CollMembers(d, r) ==
   IF Len(r.res) = 1 /\ ~IsVirt(r.res[1]) /\ d[r.res[1].id].k = "seq" THEN d[r.res[1].id].kids
   ELSE FlatIds(r.res)
-ScalarIds(d, ids) == \A j \in 1..Len(ids) : d[ids[j]].k = "s"
+CollScalars(d, ids) == \A j \in 1..Len(ids) : d[ids[j]].k = "s"
 \* values the right-hand side of - offers (list elements and Set members; not Hash values)
 MinusVals(d, ids) == SelectSeq(ids, LAMBDA x : d[x].par # 0 /\ d[d[x].par].k # "map")
 SameScalar(d, a, b) == IF NumKind(d[a]) /\ NumKind(d[b]) THEN NumEQ(TypedHay(Hay(d[a].t, d[a].v)), TypedHay(Hay(d[b].t, d[b].v)))
@@ -377,7 +377,7 @@ CollFold(d, c, segs, j, acc) ==   \* acc = [err, ids, info, dead]; dead: some op
   ELSE LET r == ExprSel(d, c, segs[j].v) IN
     IF r.err # "" THEN [acc EXCEPT !.err = "yperr"]
     ELSE LET rids == IF segs[j].cop = "+" THEN FlatIds(r.res) ELSE CollMembers(d, r)
-             info == acc.info \/ r.info \/ ~ScalarIds(d, rids) \/ (\E x \in 1..Len(r.res) : IsVirt(r.res[x]))
+             info == acc.info \/ r.info \/ ~CollScalars(d, rids) \/ (\E x \in 1..Len(r.res) : IsVirt(r.res[x]))
              ids == IF segs[j].cop = "+" THEN acc.ids \o rids
                     ELSE IF segs[j].cop = "-" THEN
                       SelectSeq(acc.ids, LAMBDA a : ~\E x \in 1..Len(MinusVals(d, rids)) : SameScalar(d, a, MinusVals(d, rids)[x]))
@@ -391,7 +391,7 @@ CollectorStep(d, c, segs, i) ==
     IF r.err # "" THEN YPErr
     ELSE LET first == CollMembers(d, r)
              acc == CollFold(d, c, segs, i + 1, [err |-> "", ids |-> first, dead |-> r.dead \/ Len(r.res) = 0,
-                                                  info |-> r.info \/ ~ScalarIds(d, first) \/ (\E x \in 1..Len(r.res) : IsVirt(r.res[x]))])
+                                                  info |-> r.info \/ ~CollScalars(d, first) \/ (\E x \in 1..Len(r.res) : IsVirt(r.res[x]))])
          IN IF acc.err # "" THEN YPErr
             ELSE IF Len(acc.ids) = 0 THEN [None EXCEPT !.info = acc.info, !.dead = TRUE]
             ELSE [Res(<<Virt(acc.ids)>>, acc.info) EXCEPT !.dead = acc.dead]
